@@ -47,5 +47,10 @@ Definition ic_counts (module_root : option key) (pseudo : bool) (terms : list ke
   bind (match module_root with None => g_root g | Some r => Ok r end) (fun root =>
   let base := map (fun t => (t, kcount t hs)) (dedup hs) in
   let final := with_pseudo pseudo (match m with None => terms | Some ids => ids end) base in
-  Ok (final, lookup final root)))).
+  (* -log(count / population): a population count of 0 with a non-empty mapping divides by zero
+     (only possible for an ontology whose term list does not cover its own root) *)
+  match final, lookup final root with
+  | _ :: _, 0 => Err OtherError
+  | _, pop => Ok (final, pop)
+  end))).
 End Ic.
